@@ -73,6 +73,53 @@ func stopsRule(c *core.Ctx, r *core.Report, rule, pkgRel string, floor int) {
 			}
 		}
 	}
+	hasMarker := func(sl *core.ReadPaths) bool {
+		for _, m := range table {
+			if m.call != "" {
+				for k := range sl.Calls {
+					if k == m.call || strings.HasPrefix(k, m.call+"[") {
+						return true
+					}
+				}
+			}
+			if m.path != "" && sl.HasSuffix(m.path) {
+				return true
+			}
+		}
+		return false
+	}
+	// branch conditions inside the helpers addNext calls directly, by call site: a predicate helper
+	// (`if v.isValidatedEdge(s, edgeInfo)`) returns constants, what it decides on is in its own branches
+	helperConds := map[ssa.Instruction][]core.InlinedInstr{}
+	for _, hi := range core.InlinedInstrs(c, fn, c.Depth(1), func(ins ssa.Instruction) bool { _, ok := ins.(*ssa.If); return ok }) {
+		if chain := hi.CallChain(); len(chain) > 0 {
+			site := chain[len(chain)-1].(ssa.Instruction)
+			helperConds[site] = append(helperConds[site], hi)
+		}
+	}
+	var callsIn func(v ssa.Value, d int) []ssa.Instruction
+	callsIn = func(v ssa.Value, d int) []ssa.Instruction {
+		if d > 3 {
+			return nil
+		}
+		switch x := v.(type) {
+		case *ssa.Call:
+			return []ssa.Instruction{x}
+		case *ssa.UnOp:
+			return callsIn(x.X, d+1)
+		case *ssa.BinOp:
+			return append(callsIn(x.X, d+1), callsIn(x.Y, d+1)...)
+		case *ssa.Extract:
+			return callsIn(x.Tuple, d+1)
+		case *ssa.Phi:
+			var res []ssa.Instruction
+			for _, e := range x.Edges {
+				res = append(res, callsIn(e, d+1)...)
+			}
+			return res
+		}
+		return nil
+	}
 	n := 0
 	var bad []string
 	for _, ii := range core.InlinedInstrs(c, fn, 0, func(ins ssa.Instruction) bool { _, ok := ins.(*ssa.If); return ok }) {
@@ -83,17 +130,14 @@ func stopsRule(c *core.Ctx, r *core.Report, rule, pkgRel string, floor int) {
 		// the branch must itself lie before the enqueue (not after it)
 		n++
 		sl := ii.Slice(ii.Ins.(*ssa.If).Cond)
-		ok := false
-		for _, m := range table {
-			if m.call != "" {
-				for k := range sl.Calls {
-					if k == m.call || strings.HasPrefix(k, m.call+"[") {
+		ok := hasMarker(sl)
+		if !ok {
+			for _, site := range callsIn(ii.Ins.(*ssa.If).Cond, 0) {
+				for _, hc := range helperConds[site] {
+					if hasMarker(hc.Slice(hc.Ins.(*ssa.If).Cond)) {
 						ok = true
 					}
 				}
-			}
-			if m.path != "" && sl.HasSuffix(m.path) {
-				ok = true
 			}
 		}
 		if !ok {
